@@ -26,6 +26,8 @@ func init() {
 			{"C07-R3", "DR selection and exclusion normalisation", c07r3},
 			{"C07-R4", "~ exclusions of both scopes precede every import", c07r4},
 			{"C07-R5", "an unset exportTo is resolved through the mesh default when the export index is built", c07r5},
+			{"C07-R6", "the effective service exportTo always passes the ServiceEntry visibility clamp", c07r6},
+			{"C07-R7", "a DestinationRule is folded only into an entry that is exported no wider than the rule", c07r7},
 		},
 	})
 }
@@ -812,4 +814,119 @@ func c07r5(c *Ctx) {
 			row.entry+" (and what it calls in package model) never reads exportToDefaults."+row.field+": an object without exportTo is indexed without regard to the mesh default, so with a private default (\".\") it is handed to every namespace")
 	}
 	c.Floor(3)
+}
+
+
+// C07-R6: serviceExportTo is the one place the effective export set of a service is computed; the serviceEntryVisibility
+// clamp (applyToSidecars) may only narrow it. Every path to a return passes the clamp decision (the GetApplyToSidecars
+// test), except the path on which the set is exactly {None} (nothing to narrow). A short cut in front of it - e.g. "no
+// exportTo declared: return the mesh default" - hands out an unclamped set, and a ServiceEntry that the policy confines
+// to its namespace is visible to every namespace.
+func c07r6(c *Ctx) {
+	p := c.P
+	fn := p.Func(pkgModel, "PushContext", "serviceExportTo")
+	isClamp := func(ins ssa.Instruction) bool {
+		o := calleeObj(ins)
+		return o != nil && o.Name() == "GetApplyToSidecars"
+	}
+	n := 0
+	eachInstr(fn, func(ins ssa.Instruction) {
+		if isClamp(ins) {
+			n++
+		}
+	})
+	c.Check("serviceExportTo consults the visibility clamp", fn.Pos(), n >= 1, "no GetApplyToSidecars test in serviceExportTo")
+	// the {None} edge
+	var none []Edge
+	for _, i := range allIfs(fn) {
+		v, neg := stripNot(i.Cond)
+		call, ok := v.(*ssa.Call)
+		if !ok {
+			continue
+		}
+		if o := calleeObj(call); o == nil || o.Name() != "Contains" {
+			continue
+		}
+		isNone := false
+		for _, a := range call.Call.Args {
+			if sv, ok := constString(a); ok && sv == "~" {
+				isNone = true
+			}
+		}
+		if !isNone {
+			continue
+		}
+		idx := 0
+		if neg {
+			idx = 1
+		}
+		none = append(none, Edge{i.Block(), idx})
+	}
+	bad, found := pathAvoidingE(fn.Blocks[0], nil, isClamp, isReturn, none, nil)
+	pos := fn.Pos()
+	if bad != nil {
+		pos = bad.Pos()
+	}
+	c.Check("every effective exportTo passes the visibility clamp (or is exactly None)", pos, !found,
+		"serviceExportTo can return an export set on a path that never reaches the serviceEntryVisibility clamp: with applyToSidecars a ServiceEntry whose visibility resolves to NAMESPACE or NONE (e.g. one that declares no exportTo and so follows the mesh default `*`) is handed to proxies of every namespace - clusters, endpoints and scope entries included")
+	c.Floor(2)
+}
+
+// C07-R7: mergeDestinationRule folds an incoming rule into an existing entry for the same host only when that is safe
+// for visibility: the entry's traffic policy and subsets then also reach everyone the ENTRY is exported to, so the
+// incoming rule must be exported at least as widely as the entry (incoming exportTo is a superset of the entry's, or
+// they are equal). Structurally: every merge into an existing entry is under an edge of a test whose receiver is the
+// INCOMING export set and whose argument is the ENTRY's (SupersetOf / Equals) - never the other way round.
+func c07r7(c *Ctx) {
+	p := c.P
+	fn := p.Func(pkgModel, "PushContext", "mergeDestinationRule")
+	incoming := paramNamed(fn, "exportToSet")
+	exF := p.Field(pkgModel, "ConsolidatedDestRule", "exportTo")
+	n := 0
+	var scan func(f *ssa.Function, isIn, isEn func(ssa.Value) bool, depth int)
+	scan = func(f *ssa.Function, isIn, isEn func(ssa.Value) bool, depth int) {
+		eachInstr(f, func(ins ssa.Instruction) {
+			call, ok := ins.(*ssa.Call)
+			if !ok {
+				return
+			}
+			o := calleeObj(call)
+			args := call.Call.Args
+			if o != nil && (o.Name() == "SupersetOf" || o.Name() == "Equals") && len(args) == 2 {
+				a0, a1 := args[0], args[1]
+				if !(isIn(a0) || isIn(a1) || isEn(a0) || isEn(a1)) {
+					return
+				}
+				n++
+				ok2 := o.Name() == "Equals" || (isIn(a0) && isEn(a1))
+				c.Check("export comparison that licenses a merge has the incoming rule on the wide side", call.Pos(), ok2,
+					"mergeDestinationRule compares the export sets with the existing entry on the wide side ("+o.Name()+"): a rule exported to FEWER namespaces than the entry is then folded into it, and its subsets and traffic policy reach namespaces the rule is not exported to")
+				return
+			}
+			// a same-package helper that receives the sets: follow with the parameters mapped
+			callee := call.Call.StaticCallee()
+			if callee == nil || !isIstioFunc(callee) || callee.Pkg != f.Pkg || len(callee.Blocks) == 0 || depth == 0 {
+				return
+			}
+			inP, enP := map[ssa.Value]bool{}, map[ssa.Value]bool{}
+			for k, a := range args {
+				if k >= len(callee.Params) {
+					break
+				}
+				if isIn(a) {
+					inP[callee.Params[k]] = true
+				}
+				if isEn(a) {
+					enP[callee.Params[k]] = true
+				}
+			}
+			if len(inP) == 0 && len(enP) == 0 {
+				return
+			}
+			scan(callee, func(v ssa.Value) bool { return inP[v] }, func(v ssa.Value) bool { return enP[v] }, depth-1)
+		})
+	}
+	scan(fn, func(v ssa.Value) bool { return v == ssa.Value(incoming) }, func(v ssa.Value) bool { return fieldOfLoad(v) == exF }, 2)
+	c.Check("export comparisons in mergeDestinationRule found", fn.Pos(), n >= 1, "no SupersetOf/Equals comparison of the incoming and the entry's exportTo")
+	c.Floor(2)
 }
